@@ -133,7 +133,7 @@ type taintRun struct {
 	inPkg   map[*ssa.Function]bool
 	table   *ssa.Global
 	st      map[ssa.Value]taintK
-	cell    map[ssa.Value]taintK  // local cells (Alloc) and captured cells
+	cell    map[ssa.Value]taintK    // local cells (Alloc) and captured cells
 	alias   map[ssa.Value]ssa.Value // FreeVar -> the Alloc it was bound to
 	from    map[ssa.Value]ssa.Value
 	sinks   []string
